@@ -8,10 +8,16 @@ use crate::common::{alc, lct};
 use crate::receiver::writer::ObjectCacheControl;
 use crate::tools::error::FluteError;
 use crate::tools::error::Result;
+#[cfg(not(feature = "ypo_flute_verif"))]
 use std::collections::{BTreeMap, BTreeSet, HashMap, VecDeque};
+#[cfg(feature = "ypo_flute_verif")]
+use std::collections::{BTreeMap as HashMap, BTreeMap, BTreeSet, VecDeque};
 use std::rc::Rc;
 use std::time::Duration;
+#[cfg(not(feature = "ypo_flute_verif"))]
 use std::time::Instant;
+#[cfg(feature = "ypo_flute_verif")]
+use crate::verif::clock::Instant;
 use std::time::SystemTime;
 
 /// Configuration of the FLUTE Receiver
@@ -217,6 +223,8 @@ impl Receiver {
                 }
             })
             .collect();
+        #[cfg(feature = "ypo_flute_verif")]
+        let expired_objects_toi: BTreeSet<u128> = expired_objects_toi.into_iter().collect();
 
         for toi in expired_objects_toi {
             self.objects_error.remove(&toi);
